@@ -21,6 +21,7 @@
 #include <unistd.h>
 #include <signal.h>
 #include <sys/wait.h>
+#include <sys/resource.h>
 #include "givinteger.h"
 #include "gfq.h"
 #include "c05_alias.h"
@@ -204,7 +205,7 @@ template <class T> struct S : public Session {
             std::cout.flush();
             pid_t pid = fork();
             if (pid == 0) {
-                close(fd[0]); alarm(5);
+                close(fd[0]); { struct rlimit rl; rl.rlim_cur = 10; rl.rlim_max = 10; setrlimit(RLIMIT_CPU, &rl); } alarm(300);   // CPU limit (load-independent); the alarm only covers a sleeping child
                 r.reserve(4); x.reserve(4); y.reserve(4);
                 std::string res = run_arr(t[1], sz, s, r, x, y);
                 if (write(fd[1], res.c_str(), res.size()) < 0) _exit(3);
